@@ -434,5 +434,40 @@ func ddp_string_char_verkettet [C12, C05]
   ensures validCp(c) && c != 0 ==> (forall k int :: 0 <= k && k < encLen(c) ==> byteAt(ret.str, old(lenB(str)) + k) == encByte(c, k))
   ensures !validCp(c) ==> lenB(ret) == old(lenB(str)) && (forall k int :: 0 <= k && k < lenB(ret) ==> byteAt(ret.str, k) == old(byteAt(str.str, k)))
   ensures str.str.B == nil && str.cap == 0
+
+func clamp [C12]
+  pure
+  ensures result == ((i < min ? min : i) > max ? max : (i < min ? min : i))
+spec clampS(i int, lo int, hi int) int := (i < lo ? lo : i) > hi ? hi : (i < lo ? lo : i)
+
+// slicing: the code points index1..index2 (1-based, inclusive, both clamped into the Text) as a new Text; the
+// operand is untouched. (i1, i2 are the function's own cursors: the byte offsets of the first and the last character)
+func ddp_string_slice [C12, C06]
+  requires wfStr(str) && validT(str) && ret != nil && ret != str
+  modifies ddprt.ddpstring, ddprt.Blk.$n, ddprt.Blk.$m
+  callsite ddp_runtime_error requires clampS(index2, 1, cpCount(str)) < clampS(index1, 1, cpCount(str))
+  ensures wfStr(ret)
+  ensures old(str.str.B) == nil ==> ret.str.B == nil
+  // L: both cursors are placed, the result has not been allocated yet
+  at L before call ddp_reallocate
+  ensures old(str.str.B) != nil ==> 0 <= i1 && i1 <= i2 && i2 < old(lenB(str)) && !isCont(at(L, byteAt(str.str, i1))) && !isCont(at(L, byteAt(str.str, i2)))
+  ensures old(str.str.B) != nil ==> at(L, count(k, 0, i1, !isCont(byteAt(str.str, k)))) == clampS(index1, 1, old(cpCount(str))) - 1
+  ensures old(str.str.B) != nil ==> at(L, count(k, 0, i2, !isCont(byteAt(str.str, k)))) == clampS(index2, 1, old(cpCount(str))) - 1
+  ensures old(str.str.B) != nil ==> lenB(ret) == i2 + at(L, leadW(byteAt(str.str, i2))) - i1
+  ensures old(str.str.B) != nil ==> (forall k int :: 0 <= k && k < lenB(ret) ==> byteAt(ret.str, k) == at(L, byteAt(str.str, i1 + k)))
+  ensures str.str == old(str.str) && str.cap == old(str.cap) && wfStr(str)
+  loop 0 invariant 0 <= i1 && i1 <= lenB(str) && (i1 < lenB(str) ==> !isCont(byteAt(str.str, i1)))
+  loop 0 invariant 0 <= len_ && len_ <= index1_addr && count(k, 0, i1, !isCont(byteAt(str.str, k))) == len_
+  loop 0 invariant str_addr == str && ret_addr == ret && str.str.B != nil && str.cap >= 2 && wfStr(str) && validT(str)
+  loop 0 invariant index1_addr == clampS(index1, 1, cpCount(str)) - 1 && index2_addr == clampS(index2, 1, cpCount(str)) - 1 && index1_addr <= index2_addr
+  loop 0 invariant ret.str.B == nil && ret.cap == 0
+  loop 0 decreases lenB(str) - i1
+  loop 1 invariant 0 <= i1 && i1 <= i2 && i2 <= lenB(str) && (i2 < lenB(str) ==> !isCont(byteAt(str.str, i2))) && (i1 < lenB(str) ==> !isCont(byteAt(str.str, i1)))
+  loop 1 invariant index1_addr <= len_ && len_ <= index2_addr && count(k, 0, i2, !isCont(byteAt(str.str, k))) == len_
+  loop 1 invariant count(k, 0, i1, !isCont(byteAt(str.str, k))) == index1_addr
+  loop 1 invariant str_addr == str && ret_addr == ret && str.str.B != nil && str.cap >= 2 && wfStr(str) && validT(str)
+  loop 1 invariant index1_addr == clampS(index1, 1, cpCount(str)) - 1 && index2_addr == clampS(index2, 1, cpCount(str)) - 1 && index1_addr <= index2_addr
+  loop 1 invariant ret.str.B == nil && ret.cap == 0
+  loop 1 decreases lenB(str) - i2
 @*/
 #endif
